@@ -116,8 +116,8 @@ pub fn scope_put(v: &mut Vec<CompilationScope>, i: usize, s: CompilationScope)
                    "cur(final(self)).code@ == cur(old(self)).code@.subrange(0, old(self).scopes@[old(self).scope_index as int].last_ins.position as int)",
                    "cur(final(self)).lines@ == cur(old(self)).lines@.subrange(0, old(self).scopes@[old(self).scope_index as int].last_ins.position as int)",
                    "final(self).encoding_error == old(self).encoding_error"], props=["C13"],
-          rewrites=[dict(rule="R3", re=r"old_ins\.code\[\.\.last_ins\.position\]\.to_vec\(\)", to="u8_to_vec(&old_ins.code, last_ins.position)", expect=1, why="slice.to_vec() shim with the bound as precondition"),
-                    dict(rule="R3", re=r"old_ins\.lines\[\.\.last_ins\.position\]\.to_vec\(\)", to="usize_to_vec(&old_ins.lines, last_ins.position)", expect=1, why="slice.to_vec() shim with the bound as precondition")]),
+          rewrites=[dict(rule="R3", re=r"old_ins\.code\[\.\.last_ins\.position\]\.to_vec\(\)", to="u8_to_vec(&old_ins.code, last_ins.position)", why="slice.to_vec() shim with the bound as precondition"),
+                    dict(rule="R3", re=r"old_ins\.lines\[\.\.last_ins\.position\]\.to_vec\(\)", to="usize_to_vec(&old_ins.lines, last_ins.position)", why="slice.to_vec() shim with the bound as precondition")]),
         m("compile", ret="r", requires=CW,
           ensures=["r is Ok ==> final(self).encoding_error is None"], props=["C14"],
           rewrites=[dict(rule="R7", re=r"self\.compile_program\(pgm\)\?;", to="let (cp, ov) = compile_program_shim(self, pgm); cp?;", expect=1,
